@@ -19,7 +19,11 @@ structure SeqGood' (c : Circuit) (bb : BBox) (dPort qPort : Name) : Prop where
   pinsPresent : ∀ u ∈ c.bbs, (∀ g ∈ bb.ins, c.ty? (u.1 ++ "." ++ g) = some "bb_input") ∧
     (∀ g ∈ bb.outs, c.ty? (u.1 ++ "." ++ g) = some "bb_output")
   outsOrdinary : ∀ o ∈ c.outputs, isPin c o = false
-  noClash : ∀ u ∈ c.bbs, ∀ g ∈ bb.ins ++ bb.outs, c.has (u.1 ++ "_" ++ g) = false
+
+/-- no node of `c` carries the exposed name `inst_pin` of a pin that is not ignored (mirror of the hypothesis `hclash` of
+    the C09 theorems; it depends on `ignore_pins` and is therefore not a field of `SeqGood'`) -/
+def NoClash (c : Circuit) (bb : BBox) (ig : List Name) : Prop :=
+  ∀ u ∈ c.bbs, ∀ g ∈ bb.ins ++ bb.outs, g ∉ ig → c.has (u.1 ++ "_" ++ g) = false
 
 /-- instance names -/
 def insts (c : Circuit) : List Name := c.bbs.map (fun p : Name × BBox => p.1)
@@ -29,42 +33,48 @@ def sio (c : Circuit) (dPort qPort : Name) : List (Name × Name) :=
   (insts c).map (fun (b : Name) => (b ++ "_" ++ dPort, b ++ "_" ++ qPort))
 
 /-- everything removed from the stripped circuit before the unloaded inputs -/
-def R12 (c : Circuit) (bb : BBox) (dPort qPort : Name) : List Name :=
-  R1 bb (insts c) dPort ++ R2 bb (insts c) qPort
+def R12 (c : Circuit) (bb : BBox) (dPort qPort : Name) (ig : List Name) : List Name :=
+  R1 bb (insts c) dPort ig ++ R2 bb (insts c) qPort ig
 
-theorem cs2_eq (c cs0 : Circuit) (bb : BBox) (dPort qPort : Name) :
-    cs2 cs0 bb (insts c) dPort qPort = cs0.remove (R12 c bb dPort qPort) := by
+theorem cs2_eq (c cs0 : Circuit) (bb : BBox) (dPort qPort : Name) (ig : List Name) :
+    cs2 cs0 bb (insts c) dPort qPort ig = cs0.remove (R12 c bb dPort qPort ig) := by
   unfold cs2 R12
   rw [remove_append]
 
-theorem mem_R12 {c : Circuit} {bb : BBox} {dPort qPort x : Name} (h : x ∈ R12 c bb dPort qPort) :
-    ∃ u ∈ c.bbs, ∃ g ∈ bb.ins ++ bb.outs, x = u.1 ++ "_" ++ g := by
+theorem not_ig_of_filter {ig : List Name} {p e : Name} (h : (p != e && !ig.contains p) = true) : p ∉ ig := by
+  intro hp
+  rw [List.contains_iff_mem.2 hp] at h
+  simp at h
+
+/-- only exposed (not ignored) pins are removed by name -/
+theorem mem_R12 {c : Circuit} {bb : BBox} {dPort qPort x : Name} {ig : List Name} (h : x ∈ R12 c bb dPort qPort ig) :
+    ∃ u ∈ c.bbs, ∃ g ∈ bb.ins ++ bb.outs, g ∉ ig ∧ x = u.1 ++ "_" ++ g := by
   unfold R12 R1 R2 insts at h
   rcases List.mem_append.1 h with h | h
   · obtain ⟨p, hp, hx⟩ := List.mem_flatMap.1 h
     obtain ⟨b, hb, e⟩ := List.mem_map.1 hx
     obtain ⟨u, hu, rfl⟩ := List.mem_map.1 hb
-    exact ⟨u, hu, p, List.mem_append.2 (Or.inl (List.mem_filter.1 hp).1), e.symm⟩
+    exact ⟨u, hu, p, List.mem_append.2 (Or.inl (List.mem_filter.1 hp).1), not_ig_of_filter (List.mem_filter.1 hp).2, e.symm⟩
   · obtain ⟨p, hp, hx⟩ := List.mem_flatMap.1 h
     obtain ⟨b, hb, e⟩ := List.mem_map.1 hx
     obtain ⟨u, hu, rfl⟩ := List.mem_map.1 hb
-    exact ⟨u, hu, p, List.mem_append.2 (Or.inr (List.mem_filter.1 hp).1), e.symm⟩
+    exact ⟨u, hu, p, List.mem_append.2 (Or.inr (List.mem_filter.1 hp).1), not_ig_of_filter (List.mem_filter.1 hp).2, e.symm⟩
 
 section
 variable {c cs0 : Circuit} {bb : BBox} {dPort qPort : Name} {ig : List Name}
 
 /-- no ordinary node is among the removed names -/
-theorem not_R12_of_has (G : SeqGood' c bb dPort qPort) {x : Name} (hx : c.has x = true) : x ∉ R12 c bb dPort qPort := by
+theorem not_R12_of_has (K : NoClash c bb ig) {x : Name} (hx : c.has x = true) : x ∉ R12 c bb dPort qPort ig := by
   intro h
-  obtain ⟨u, hu, g, hg, rfl⟩ := mem_R12 h
-  rw [G.noClash u hu g hg] at hx
+  obtain ⟨u, hu, g, hg, hgi, rfl⟩ := mem_R12 h
+  rw [K u hu g hg hgi] at hx
   cases hx
 
-theorem R12_removable (G : SeqGood' c bb dPort qPort) (S : StripView c ig cs0) :
-    ∀ x ∈ R12 c bb dPort qPort, cs0.has x = true → Removable cs0 x := by
+theorem R12_removable (G : SeqGood' c bb dPort qPort) (K : NoClash c bb ig) (S : StripView c ig cs0) :
+    ∀ x ∈ R12 c bb dPort qPort ig, cs0.has x = true → Removable cs0 x := by
   intro x hx hhas
-  obtain ⟨u, hu, g, hg, rfl⟩ := mem_R12 hx
-  obtain ⟨n, hk, e⟩ := pin_image S hhas (G.noClash u hu g hg)
+  obtain ⟨u, hu, g, hg, hgi, rfl⟩ := mem_R12 hx
+  obtain ⟨n, hk, e⟩ := pin_image S hhas (K u hu g hg hgi)
   rw [e]
   exact removable_of_kept G.clean S hk
 
@@ -80,17 +90,17 @@ theorem R3_removable (c2 : Circuit) (l : List Name) (q : Name) (ru : Bool) :
     exact hx.2.1.1
 
 /-- the circuit handed to `unroll`, as two removals from the stripped circuit -/
-theorem prune_eq (c cs0 : Circuit) (bb : BBox) (dPort qPort : Name) (ru : Bool) :
-    prune cs0 bb (insts c) dPort qPort ru =
-      (cs0.remove (R12 c bb dPort qPort)).remove (R3 (cs0.remove (R12 c bb dPort qPort)) (insts c) qPort ru) := by
+theorem prune_eq (c cs0 : Circuit) (bb : BBox) (dPort qPort : Name) (ig : List Name) (ru : Bool) :
+    prune cs0 bb (insts c) dPort qPort ig ru =
+      (cs0.remove (R12 c bb dPort qPort ig)).remove (R3 (cs0.remove (R12 c bb dPort qPort ig)) (insts c) qPort ru) := by
   unfold prune
   rw [cs2_eq]
 
 /-- a pin that is not ignored and whose exposed name is a node of the stripped circuit is kept under that name -/
-theorem key_name (G : SeqGood' c bb dPort qPort) (S : StripView c ig cs0) {u : Name × BBox} (hu : u ∈ c.bbs) {g : Name}
+theorem key_name (G : SeqGood' c bb dPort qPort) (K : NoClash c bb ig) (S : StripView c ig cs0) {u : Name × BBox} (hu : u ∈ c.bbs) {g : Name}
     (hg : g ∈ bb.ins ++ bb.outs) (hgi : g ∉ ig) (hhas : cs0.has (u.1 ++ "_" ++ g) = true) :
     kept c ig (u.1 ++ "." ++ g) = true ∧ sname c ig (u.1 ++ "." ++ g) = u.1 ++ "_" ++ g := by
-  obtain ⟨n, _, e⟩ := pin_image S hhas (G.noClash u hu g hg)
+  obtain ⟨n, _, e⟩ := pin_image S hhas (K u hu g hg hgi)
   have hnd : hasDot (u.1 ++ "_" ++ g) = false := by rw [e]; exact hasDot_replaceDots n
   obtain ⟨d1, d2⟩ := hasDot_under hnd
   have hpin : isPin c (u.1 ++ "." ++ g) = true := by
